@@ -339,8 +339,9 @@ func (ctx *Ctx) Reset() {
 //
 // See Ctx.Get().
 func (ctx *Ctx) get(path []byte) any {
-	// Reset error to avoid catching errors from previous nodes.
+	// Reset error and value to avoid catching them from previous nodes.
 	ctx.Err = nil
+	ctx.bufX = nil
 
 	// Special case: check square brackets on counter loops.
 	// See Ctx.replaceQB().
